@@ -1752,3 +1752,305 @@ fn complex_roundtrip<const N: usize>() {
 fn c08_complex_roundtrip_f32() {
     complex_roundtrip::<2>();
 }
+
+// ---- C02: larger buffer variant of the borrowed parser (thorough) ----
+//@ prop: C02
+//@ tier: thorough
+//@ clause: as c02_view_from_slice_total on a 64-byte buffer (payload up to 16 bytes)
+//@ funcs: MessageView::from_slice; MessageView::from_slice_exact; Header::decode
+//@ symbolic: 64-byte buffer (every bit) and its length 0..=64
+//@ bounds: buffer <= 64 bytes
+//@ oracle: u128 consistency predicate on the raw bytes; pointer identity of the borrowed ranges
+#[kani::proof]
+fn c02_view_from_slice_total_64() {
+    let buf: [u8; 64] = kani::any();
+    let n: usize = kani::any();
+    kani::assume(n <= 64);
+    let exact: bool = kani::any();
+    let r = if exact { MessageView::from_slice_exact(&buf[..n]) } else { MessageView::from_slice(&buf[..n]) };
+    let rd = |o: usize| u64::from_le_bytes([buf[o], buf[o + 1], buf[o + 2], buf[o + 3], buf[o + 4], buf[o + 5], buf[o + 6], buf[o + 7]]);
+    let (len, q, bl) = (rd(0) as u128, rd(24) as u128, rd(32) as u128);
+    let total = 48 + q + bl;
+    let ok = n >= 48 && buf[8] == 0x07 && buf[9] == 0x15 && len == total && (if exact { n as u128 == total } else { n as u128 >= total });
+    match &r {
+        Ok(v) => {
+            assert!(ok, "parse succeeded on an inconsistent or truncated frame");
+            assert!(v.query.len() as u128 == q && v.body.len() as u128 == bl);
+            assert!(v.query.as_ptr() == buf[48..].as_ptr(), "query is not the input range");
+            assert!(v.body.as_ptr() == buf[48 + q as usize..].as_ptr(), "body is not the input range");
+            kani::cover!(q == 7 && bl == 9);
+        }
+        Err(_) => assert!(!ok, "a complete consistent frame was rejected"),
+    }
+    std::mem::forget(r);
+}
+
+//@ name: c08_aligned_i16_q0
+//@ prop: C08
+//@ tier: thorough
+//@ clause: alignment-padded form for i16 with a 0-byte query (residue 0 mod 8): the payload starts at an absolute frame offset that is a multiple of the element alignment, stays there through into_wire_bytes, and decodes to the same elements
+//@ funcs: MessageBuilder::body_aligned_typed_slice; beve::aligned_typed_slice_size; beve::write_aligned_typed_slice_at; beve::read_aligned_typed_slice; Message::into_wire_bytes; MessageView::from_slice_exact
+//@ symbolic: 2 elements of i16 (every bit pattern)
+//@ bounds: 2 elements; query length 0 (per-instance constant); unwind 90
+//@ oracle: (48 + |query| + body_len - payload) % align_of == 0; to_bits equality
+c08_aligned!(c08_aligned_i16_q0, i16, 2, 0);
+
+//@ name: c08_aligned_i16_q1
+//@ prop: C08
+//@ tier: thorough
+//@ clause: alignment-padded form for i16 with a 1-byte query (residue 1 mod 8): the payload starts at an absolute frame offset that is a multiple of the element alignment, stays there through into_wire_bytes, and decodes to the same elements
+//@ funcs: MessageBuilder::body_aligned_typed_slice; beve::aligned_typed_slice_size; beve::write_aligned_typed_slice_at; beve::read_aligned_typed_slice; Message::into_wire_bytes; MessageView::from_slice_exact
+//@ symbolic: 2 elements of i16 (every bit pattern)
+//@ bounds: 2 elements; query length 1 (per-instance constant); unwind 90
+//@ oracle: (48 + |query| + body_len - payload) % align_of == 0; to_bits equality
+c08_aligned!(c08_aligned_i16_q1, i16, 2, 1);
+
+//@ name: c08_aligned_i16_q2
+//@ prop: C08
+//@ tier: thorough
+//@ clause: alignment-padded form for i16 with a 2-byte query (residue 2 mod 8): the payload starts at an absolute frame offset that is a multiple of the element alignment, stays there through into_wire_bytes, and decodes to the same elements
+//@ funcs: MessageBuilder::body_aligned_typed_slice; beve::aligned_typed_slice_size; beve::write_aligned_typed_slice_at; beve::read_aligned_typed_slice; Message::into_wire_bytes; MessageView::from_slice_exact
+//@ symbolic: 2 elements of i16 (every bit pattern)
+//@ bounds: 2 elements; query length 2 (per-instance constant); unwind 90
+//@ oracle: (48 + |query| + body_len - payload) % align_of == 0; to_bits equality
+c08_aligned!(c08_aligned_i16_q2, i16, 2, 2);
+
+//@ name: c08_aligned_i16_q3
+//@ prop: C08
+//@ tier: thorough
+//@ clause: alignment-padded form for i16 with a 3-byte query (residue 3 mod 8): the payload starts at an absolute frame offset that is a multiple of the element alignment, stays there through into_wire_bytes, and decodes to the same elements
+//@ funcs: MessageBuilder::body_aligned_typed_slice; beve::aligned_typed_slice_size; beve::write_aligned_typed_slice_at; beve::read_aligned_typed_slice; Message::into_wire_bytes; MessageView::from_slice_exact
+//@ symbolic: 2 elements of i16 (every bit pattern)
+//@ bounds: 2 elements; query length 3 (per-instance constant); unwind 90
+//@ oracle: (48 + |query| + body_len - payload) % align_of == 0; to_bits equality
+c08_aligned!(c08_aligned_i16_q3, i16, 2, 3);
+
+//@ name: c08_aligned_i16_q4
+//@ prop: C08
+//@ tier: thorough
+//@ clause: alignment-padded form for i16 with a 4-byte query (residue 4 mod 8): the payload starts at an absolute frame offset that is a multiple of the element alignment, stays there through into_wire_bytes, and decodes to the same elements
+//@ funcs: MessageBuilder::body_aligned_typed_slice; beve::aligned_typed_slice_size; beve::write_aligned_typed_slice_at; beve::read_aligned_typed_slice; Message::into_wire_bytes; MessageView::from_slice_exact
+//@ symbolic: 2 elements of i16 (every bit pattern)
+//@ bounds: 2 elements; query length 4 (per-instance constant); unwind 90
+//@ oracle: (48 + |query| + body_len - payload) % align_of == 0; to_bits equality
+c08_aligned!(c08_aligned_i16_q4, i16, 2, 4);
+
+//@ name: c08_aligned_i16_q5
+//@ prop: C08
+//@ tier: thorough
+//@ clause: alignment-padded form for i16 with a 5-byte query (residue 5 mod 8): the payload starts at an absolute frame offset that is a multiple of the element alignment, stays there through into_wire_bytes, and decodes to the same elements
+//@ funcs: MessageBuilder::body_aligned_typed_slice; beve::aligned_typed_slice_size; beve::write_aligned_typed_slice_at; beve::read_aligned_typed_slice; Message::into_wire_bytes; MessageView::from_slice_exact
+//@ symbolic: 2 elements of i16 (every bit pattern)
+//@ bounds: 2 elements; query length 5 (per-instance constant); unwind 90
+//@ oracle: (48 + |query| + body_len - payload) % align_of == 0; to_bits equality
+c08_aligned!(c08_aligned_i16_q5, i16, 2, 5);
+
+//@ name: c08_aligned_i16_q6
+//@ prop: C08
+//@ tier: thorough
+//@ clause: alignment-padded form for i16 with a 6-byte query (residue 6 mod 8): the payload starts at an absolute frame offset that is a multiple of the element alignment, stays there through into_wire_bytes, and decodes to the same elements
+//@ funcs: MessageBuilder::body_aligned_typed_slice; beve::aligned_typed_slice_size; beve::write_aligned_typed_slice_at; beve::read_aligned_typed_slice; Message::into_wire_bytes; MessageView::from_slice_exact
+//@ symbolic: 2 elements of i16 (every bit pattern)
+//@ bounds: 2 elements; query length 6 (per-instance constant); unwind 90
+//@ oracle: (48 + |query| + body_len - payload) % align_of == 0; to_bits equality
+c08_aligned!(c08_aligned_i16_q6, i16, 2, 6);
+
+//@ name: c08_aligned_i16_q7
+//@ prop: C08
+//@ tier: thorough
+//@ clause: alignment-padded form for i16 with a 7-byte query (residue 7 mod 8): the payload starts at an absolute frame offset that is a multiple of the element alignment, stays there through into_wire_bytes, and decodes to the same elements
+//@ funcs: MessageBuilder::body_aligned_typed_slice; beve::aligned_typed_slice_size; beve::write_aligned_typed_slice_at; beve::read_aligned_typed_slice; Message::into_wire_bytes; MessageView::from_slice_exact
+//@ symbolic: 2 elements of i16 (every bit pattern)
+//@ bounds: 2 elements; query length 7 (per-instance constant); unwind 90
+//@ oracle: (48 + |query| + body_len - payload) % align_of == 0; to_bits equality
+c08_aligned!(c08_aligned_i16_q7, i16, 2, 7);
+
+//@ name: c08_aligned_i16_q8
+//@ prop: C08
+//@ tier: thorough
+//@ clause: alignment-padded form for i16 with a 8-byte query (residue 8 mod 8): the payload starts at an absolute frame offset that is a multiple of the element alignment, stays there through into_wire_bytes, and decodes to the same elements
+//@ funcs: MessageBuilder::body_aligned_typed_slice; beve::aligned_typed_slice_size; beve::write_aligned_typed_slice_at; beve::read_aligned_typed_slice; Message::into_wire_bytes; MessageView::from_slice_exact
+//@ symbolic: 2 elements of i16 (every bit pattern)
+//@ bounds: 2 elements; query length 8 (per-instance constant); unwind 90
+//@ oracle: (48 + |query| + body_len - payload) % align_of == 0; to_bits equality
+c08_aligned!(c08_aligned_i16_q8, i16, 2, 8);
+
+//@ name: c08_aligned_i64_q0
+//@ prop: C08
+//@ tier: thorough
+//@ clause: alignment-padded form for i64 with a 0-byte query (residue 0 mod 8): the payload starts at an absolute frame offset that is a multiple of the element alignment, stays there through into_wire_bytes, and decodes to the same elements
+//@ funcs: MessageBuilder::body_aligned_typed_slice; beve::aligned_typed_slice_size; beve::write_aligned_typed_slice_at; beve::read_aligned_typed_slice; Message::into_wire_bytes; MessageView::from_slice_exact
+//@ symbolic: 2 elements of i64 (every bit pattern)
+//@ bounds: 2 elements; query length 0 (per-instance constant); unwind 90
+//@ oracle: (48 + |query| + body_len - payload) % align_of == 0; to_bits equality
+c08_aligned!(c08_aligned_i64_q0, i64, 2, 0);
+
+//@ name: c08_aligned_i64_q1
+//@ prop: C08
+//@ tier: thorough
+//@ clause: alignment-padded form for i64 with a 1-byte query (residue 1 mod 8): the payload starts at an absolute frame offset that is a multiple of the element alignment, stays there through into_wire_bytes, and decodes to the same elements
+//@ funcs: MessageBuilder::body_aligned_typed_slice; beve::aligned_typed_slice_size; beve::write_aligned_typed_slice_at; beve::read_aligned_typed_slice; Message::into_wire_bytes; MessageView::from_slice_exact
+//@ symbolic: 2 elements of i64 (every bit pattern)
+//@ bounds: 2 elements; query length 1 (per-instance constant); unwind 90
+//@ oracle: (48 + |query| + body_len - payload) % align_of == 0; to_bits equality
+c08_aligned!(c08_aligned_i64_q1, i64, 2, 1);
+
+//@ name: c08_aligned_i64_q2
+//@ prop: C08
+//@ tier: thorough
+//@ clause: alignment-padded form for i64 with a 2-byte query (residue 2 mod 8): the payload starts at an absolute frame offset that is a multiple of the element alignment, stays there through into_wire_bytes, and decodes to the same elements
+//@ funcs: MessageBuilder::body_aligned_typed_slice; beve::aligned_typed_slice_size; beve::write_aligned_typed_slice_at; beve::read_aligned_typed_slice; Message::into_wire_bytes; MessageView::from_slice_exact
+//@ symbolic: 2 elements of i64 (every bit pattern)
+//@ bounds: 2 elements; query length 2 (per-instance constant); unwind 90
+//@ oracle: (48 + |query| + body_len - payload) % align_of == 0; to_bits equality
+c08_aligned!(c08_aligned_i64_q2, i64, 2, 2);
+
+//@ name: c08_aligned_i64_q3
+//@ prop: C08
+//@ tier: thorough
+//@ clause: alignment-padded form for i64 with a 3-byte query (residue 3 mod 8): the payload starts at an absolute frame offset that is a multiple of the element alignment, stays there through into_wire_bytes, and decodes to the same elements
+//@ funcs: MessageBuilder::body_aligned_typed_slice; beve::aligned_typed_slice_size; beve::write_aligned_typed_slice_at; beve::read_aligned_typed_slice; Message::into_wire_bytes; MessageView::from_slice_exact
+//@ symbolic: 2 elements of i64 (every bit pattern)
+//@ bounds: 2 elements; query length 3 (per-instance constant); unwind 90
+//@ oracle: (48 + |query| + body_len - payload) % align_of == 0; to_bits equality
+c08_aligned!(c08_aligned_i64_q3, i64, 2, 3);
+
+//@ name: c08_aligned_i64_q4
+//@ prop: C08
+//@ tier: thorough
+//@ clause: alignment-padded form for i64 with a 4-byte query (residue 4 mod 8): the payload starts at an absolute frame offset that is a multiple of the element alignment, stays there through into_wire_bytes, and decodes to the same elements
+//@ funcs: MessageBuilder::body_aligned_typed_slice; beve::aligned_typed_slice_size; beve::write_aligned_typed_slice_at; beve::read_aligned_typed_slice; Message::into_wire_bytes; MessageView::from_slice_exact
+//@ symbolic: 2 elements of i64 (every bit pattern)
+//@ bounds: 2 elements; query length 4 (per-instance constant); unwind 90
+//@ oracle: (48 + |query| + body_len - payload) % align_of == 0; to_bits equality
+c08_aligned!(c08_aligned_i64_q4, i64, 2, 4);
+
+//@ name: c08_aligned_i64_q5
+//@ prop: C08
+//@ tier: thorough
+//@ clause: alignment-padded form for i64 with a 5-byte query (residue 5 mod 8): the payload starts at an absolute frame offset that is a multiple of the element alignment, stays there through into_wire_bytes, and decodes to the same elements
+//@ funcs: MessageBuilder::body_aligned_typed_slice; beve::aligned_typed_slice_size; beve::write_aligned_typed_slice_at; beve::read_aligned_typed_slice; Message::into_wire_bytes; MessageView::from_slice_exact
+//@ symbolic: 2 elements of i64 (every bit pattern)
+//@ bounds: 2 elements; query length 5 (per-instance constant); unwind 90
+//@ oracle: (48 + |query| + body_len - payload) % align_of == 0; to_bits equality
+c08_aligned!(c08_aligned_i64_q5, i64, 2, 5);
+
+//@ name: c08_aligned_i64_q6
+//@ prop: C08
+//@ tier: thorough
+//@ clause: alignment-padded form for i64 with a 6-byte query (residue 6 mod 8): the payload starts at an absolute frame offset that is a multiple of the element alignment, stays there through into_wire_bytes, and decodes to the same elements
+//@ funcs: MessageBuilder::body_aligned_typed_slice; beve::aligned_typed_slice_size; beve::write_aligned_typed_slice_at; beve::read_aligned_typed_slice; Message::into_wire_bytes; MessageView::from_slice_exact
+//@ symbolic: 2 elements of i64 (every bit pattern)
+//@ bounds: 2 elements; query length 6 (per-instance constant); unwind 90
+//@ oracle: (48 + |query| + body_len - payload) % align_of == 0; to_bits equality
+c08_aligned!(c08_aligned_i64_q6, i64, 2, 6);
+
+//@ name: c08_aligned_i64_q7
+//@ prop: C08
+//@ tier: thorough
+//@ clause: alignment-padded form for i64 with a 7-byte query (residue 7 mod 8): the payload starts at an absolute frame offset that is a multiple of the element alignment, stays there through into_wire_bytes, and decodes to the same elements
+//@ funcs: MessageBuilder::body_aligned_typed_slice; beve::aligned_typed_slice_size; beve::write_aligned_typed_slice_at; beve::read_aligned_typed_slice; Message::into_wire_bytes; MessageView::from_slice_exact
+//@ symbolic: 2 elements of i64 (every bit pattern)
+//@ bounds: 2 elements; query length 7 (per-instance constant); unwind 90
+//@ oracle: (48 + |query| + body_len - payload) % align_of == 0; to_bits equality
+c08_aligned!(c08_aligned_i64_q7, i64, 2, 7);
+
+//@ name: c08_aligned_i64_q8
+//@ prop: C08
+//@ tier: thorough
+//@ clause: alignment-padded form for i64 with a 8-byte query (residue 8 mod 8): the payload starts at an absolute frame offset that is a multiple of the element alignment, stays there through into_wire_bytes, and decodes to the same elements
+//@ funcs: MessageBuilder::body_aligned_typed_slice; beve::aligned_typed_slice_size; beve::write_aligned_typed_slice_at; beve::read_aligned_typed_slice; Message::into_wire_bytes; MessageView::from_slice_exact
+//@ symbolic: 2 elements of i64 (every bit pattern)
+//@ bounds: 2 elements; query length 8 (per-instance constant); unwind 90
+//@ oracle: (48 + |query| + body_len - payload) % align_of == 0; to_bits equality
+c08_aligned!(c08_aligned_i64_q8, i64, 2, 8);
+
+//@ name: c08_aligned_i8_q0
+//@ prop: C08
+//@ tier: thorough
+//@ clause: alignment-padded form for i8 with a 0-byte query (residue 0 mod 8): the payload starts at an absolute frame offset that is a multiple of the element alignment, stays there through into_wire_bytes, and decodes to the same elements
+//@ funcs: MessageBuilder::body_aligned_typed_slice; beve::aligned_typed_slice_size; beve::write_aligned_typed_slice_at; beve::read_aligned_typed_slice; Message::into_wire_bytes; MessageView::from_slice_exact
+//@ symbolic: 2 elements of i8 (every bit pattern)
+//@ bounds: 2 elements; query length 0 (per-instance constant); unwind 90
+//@ oracle: (48 + |query| + body_len - payload) % align_of == 0; to_bits equality
+c08_aligned!(c08_aligned_i8_q0, i8, 2, 0);
+
+//@ name: c08_aligned_i8_q1
+//@ prop: C08
+//@ tier: thorough
+//@ clause: alignment-padded form for i8 with a 1-byte query (residue 1 mod 8): the payload starts at an absolute frame offset that is a multiple of the element alignment, stays there through into_wire_bytes, and decodes to the same elements
+//@ funcs: MessageBuilder::body_aligned_typed_slice; beve::aligned_typed_slice_size; beve::write_aligned_typed_slice_at; beve::read_aligned_typed_slice; Message::into_wire_bytes; MessageView::from_slice_exact
+//@ symbolic: 2 elements of i8 (every bit pattern)
+//@ bounds: 2 elements; query length 1 (per-instance constant); unwind 90
+//@ oracle: (48 + |query| + body_len - payload) % align_of == 0; to_bits equality
+c08_aligned!(c08_aligned_i8_q1, i8, 2, 1);
+
+//@ name: c08_aligned_i8_q2
+//@ prop: C08
+//@ tier: thorough
+//@ clause: alignment-padded form for i8 with a 2-byte query (residue 2 mod 8): the payload starts at an absolute frame offset that is a multiple of the element alignment, stays there through into_wire_bytes, and decodes to the same elements
+//@ funcs: MessageBuilder::body_aligned_typed_slice; beve::aligned_typed_slice_size; beve::write_aligned_typed_slice_at; beve::read_aligned_typed_slice; Message::into_wire_bytes; MessageView::from_slice_exact
+//@ symbolic: 2 elements of i8 (every bit pattern)
+//@ bounds: 2 elements; query length 2 (per-instance constant); unwind 90
+//@ oracle: (48 + |query| + body_len - payload) % align_of == 0; to_bits equality
+c08_aligned!(c08_aligned_i8_q2, i8, 2, 2);
+
+//@ name: c08_aligned_i8_q3
+//@ prop: C08
+//@ tier: thorough
+//@ clause: alignment-padded form for i8 with a 3-byte query (residue 3 mod 8): the payload starts at an absolute frame offset that is a multiple of the element alignment, stays there through into_wire_bytes, and decodes to the same elements
+//@ funcs: MessageBuilder::body_aligned_typed_slice; beve::aligned_typed_slice_size; beve::write_aligned_typed_slice_at; beve::read_aligned_typed_slice; Message::into_wire_bytes; MessageView::from_slice_exact
+//@ symbolic: 2 elements of i8 (every bit pattern)
+//@ bounds: 2 elements; query length 3 (per-instance constant); unwind 90
+//@ oracle: (48 + |query| + body_len - payload) % align_of == 0; to_bits equality
+c08_aligned!(c08_aligned_i8_q3, i8, 2, 3);
+
+//@ name: c08_aligned_i8_q4
+//@ prop: C08
+//@ tier: thorough
+//@ clause: alignment-padded form for i8 with a 4-byte query (residue 4 mod 8): the payload starts at an absolute frame offset that is a multiple of the element alignment, stays there through into_wire_bytes, and decodes to the same elements
+//@ funcs: MessageBuilder::body_aligned_typed_slice; beve::aligned_typed_slice_size; beve::write_aligned_typed_slice_at; beve::read_aligned_typed_slice; Message::into_wire_bytes; MessageView::from_slice_exact
+//@ symbolic: 2 elements of i8 (every bit pattern)
+//@ bounds: 2 elements; query length 4 (per-instance constant); unwind 90
+//@ oracle: (48 + |query| + body_len - payload) % align_of == 0; to_bits equality
+c08_aligned!(c08_aligned_i8_q4, i8, 2, 4);
+
+//@ name: c08_aligned_i8_q5
+//@ prop: C08
+//@ tier: thorough
+//@ clause: alignment-padded form for i8 with a 5-byte query (residue 5 mod 8): the payload starts at an absolute frame offset that is a multiple of the element alignment, stays there through into_wire_bytes, and decodes to the same elements
+//@ funcs: MessageBuilder::body_aligned_typed_slice; beve::aligned_typed_slice_size; beve::write_aligned_typed_slice_at; beve::read_aligned_typed_slice; Message::into_wire_bytes; MessageView::from_slice_exact
+//@ symbolic: 2 elements of i8 (every bit pattern)
+//@ bounds: 2 elements; query length 5 (per-instance constant); unwind 90
+//@ oracle: (48 + |query| + body_len - payload) % align_of == 0; to_bits equality
+c08_aligned!(c08_aligned_i8_q5, i8, 2, 5);
+
+//@ name: c08_aligned_i8_q6
+//@ prop: C08
+//@ tier: thorough
+//@ clause: alignment-padded form for i8 with a 6-byte query (residue 6 mod 8): the payload starts at an absolute frame offset that is a multiple of the element alignment, stays there through into_wire_bytes, and decodes to the same elements
+//@ funcs: MessageBuilder::body_aligned_typed_slice; beve::aligned_typed_slice_size; beve::write_aligned_typed_slice_at; beve::read_aligned_typed_slice; Message::into_wire_bytes; MessageView::from_slice_exact
+//@ symbolic: 2 elements of i8 (every bit pattern)
+//@ bounds: 2 elements; query length 6 (per-instance constant); unwind 90
+//@ oracle: (48 + |query| + body_len - payload) % align_of == 0; to_bits equality
+c08_aligned!(c08_aligned_i8_q6, i8, 2, 6);
+
+//@ name: c08_aligned_i8_q7
+//@ prop: C08
+//@ tier: thorough
+//@ clause: alignment-padded form for i8 with a 7-byte query (residue 7 mod 8): the payload starts at an absolute frame offset that is a multiple of the element alignment, stays there through into_wire_bytes, and decodes to the same elements
+//@ funcs: MessageBuilder::body_aligned_typed_slice; beve::aligned_typed_slice_size; beve::write_aligned_typed_slice_at; beve::read_aligned_typed_slice; Message::into_wire_bytes; MessageView::from_slice_exact
+//@ symbolic: 2 elements of i8 (every bit pattern)
+//@ bounds: 2 elements; query length 7 (per-instance constant); unwind 90
+//@ oracle: (48 + |query| + body_len - payload) % align_of == 0; to_bits equality
+c08_aligned!(c08_aligned_i8_q7, i8, 2, 7);
+
+//@ name: c08_aligned_i8_q8
+//@ prop: C08
+//@ tier: thorough
+//@ clause: alignment-padded form for i8 with a 8-byte query (residue 8 mod 8): the payload starts at an absolute frame offset that is a multiple of the element alignment, stays there through into_wire_bytes, and decodes to the same elements
+//@ funcs: MessageBuilder::body_aligned_typed_slice; beve::aligned_typed_slice_size; beve::write_aligned_typed_slice_at; beve::read_aligned_typed_slice; Message::into_wire_bytes; MessageView::from_slice_exact
+//@ symbolic: 2 elements of i8 (every bit pattern)
+//@ bounds: 2 elements; query length 8 (per-instance constant); unwind 90
+//@ oracle: (48 + |query| + body_len - payload) % align_of == 0; to_bits equality
+c08_aligned!(c08_aligned_i8_q8, i8, 2, 8);
